@@ -46,7 +46,7 @@ VARIABLES iid,    \* instance
           tb,     \* tie rule "first" | "last"
           k,      \* number of assignments of the alpha vectors so far (bounded by the horizon of the job)
           bv,     \* alpha vectors, one per belief of the job: integers over Sc^k
-          tied,   \* some argmax so far had more than one maximiser
+          tied,   \* some argmax so far had more than one maximiser, or some stop test hit delta = eps exactly
           out     \* result record of the finished job
 vars == <<iid, phase, orc, jt, jx, tb, k, bv, tied, out>>
 
@@ -112,7 +112,10 @@ EM(m, c, w, d) ==
        IN <<MaxTo([a \in Ac(m) |-> qa[a][1]], m.K), MaxTo([a \in Ac(m) |-> qa[a][2]], m.K)>>
 EMQ(m, c, w, d, a) ==
   LET r  == Safe(RewM(m, c, w, a) * Safe(m.GD * m.OD * c.den[d - 1]))
-      ch == TLCEval([o \in Ob(m) |-> EM(m, c, PostM(m, c, w, a, o), d - 1)])
+      \* masked one-step prediction, shared by the observations
+      pr == TLCEval([n \in St(m) |-> SumTo([s \in St(m) |-> IF w[s] = 0 \/ s \notin c.na THEN 0 ELSE Safe(w[s] * m.P[s][a][n])], m.N)])
+      ch == TLCEval([o \in Ob(m) |->
+               EM(m, c, TLCEval([n \in St(m) |-> IF m.O[a][n][o] = 0 THEN 0 ELSE Safe(pr[n] * m.O[a][n][o])]), d - 1)])
   IN <<Safe(r + Safe(m.GN * SumTo([o \in Ob(m) |-> ch[o][1]], m.NO))),
        Safe(r + Safe(m.GN * SumTo([o \in Ob(m) |-> ch[o][2]], m.NO)))>>
 
@@ -197,13 +200,11 @@ BackupAll(m, c, job, bs, X, kk, t) ==
       va == TLCEval([b \in 1..nb |-> TLCEval([p \in 1..m.K |-> Dot(m, bs[b], Y[m.aord[p]][b])])])
       ch == TLCEval([b \in 1..nb |-> m.aord[Arg(t, va[b], m.K)]])
       nX == TLCEval([b \in 1..nb |-> Y[ch[b]][b]])
-      \* a tie matters when the tied candidates are different vectors
-      tie == \/ \E b \in 1..nb : \E p, q \in 1..m.K :
-                   p # q /\ va[b][p] = MaxTo(va[b], m.K) /\ va[b][q] = MaxTo(va[b], m.K)
-                   /\ Y[m.aord[p]][b] # Y[m.aord[q]][b]
-             \/ \E a \in Ac(m) : \E o \in Ob(m) : \E b \in 1..nb : \E p, q \in 1..nb :
-                   p # q /\ sc[a][o][b][p] = MaxTo(sc[a][o][b], nb) /\ sc[a][o][b][q] = MaxTo(sc[a][o][b], nb)
-                   /\ G[p][a][o] # G[q][a][o]
+      \* a tie matters when a tied candidate is a different vector than the chosen one
+      tie == \/ \E b \in 1..nb : \E p \in 1..m.K :
+                   va[b][p] = va[b][PosOf(m, ch[b])] /\ Y[m.aord[p]][b] # nX[b]
+             \/ \E a \in Ac(m) : \E o \in Ob(m) : \E b \in 1..nb : \E p \in 1..nb :
+                   sc[a][o][b][p] = sc[a][o][b][ps[a][o][b]] /\ G[p][a][o] # G[ps[a][o][b]][a][o]
       \* delta = max_b |bv.b - new_bv.b| < eps   (both sides over BSum(b) * Sc^(kk+1) * ED)
       small == \A b \in 1..nb :
                  Safe(AbsI(Safe(Dot(m, bs[b], X[b]) * Sc(m)) - Dot(m, bs[b], nX[b])) * job.ED)
@@ -220,23 +221,25 @@ AlphaValue(m, X, nb, kk, w) ==
 
 \* canonical form of the part of a weight vector that lies on non-absorbing states
 RedNA(m, c, w) == Reduce(m, [s \in St(m) |-> IF s \in c.na THEN w[s] ELSE 0])
-\* every (masked) successor of w is, up to scaling and up to mass on absorbing states, a member of bs
-Covered(m, c, bs, w) ==
+\* every (masked) successor of w is, up to scaling and up to mass on absorbing states, a member of the
+\* belief set; RS = the canonical non-absorbing parts of the members
+RedSet(m, c, bs) == {RedNA(m, c, bs[i]) : i \in 1..Len(bs)}
+Covered(m, c, RS, w) ==
   \A a \in Ac(m) : \A o \in Ob(m) :
-     LET p == RedNA(m, c, PostM(m, c, w, a, o)) IN
-     Dead(m, c, p) \/ \E i \in 1..Len(bs) : RedNA(m, c, bs[i]) = p
-InSet(m, c, bs, w) == Dead(m, c, w) \/ \E i \in 1..Len(bs) : RedNA(m, c, bs[i]) = RedNA(m, c, w)
-Closed(m, c, bs) == \A i \in 1..Len(bs) : Covered(m, c, bs, bs[i])
+     LET p == RedNA(m, c, PostM(m, c, w, a, o)) IN Dead(m, c, p) \/ p \in RS
+InSet(m, c, RS, w) == Dead(m, c, w) \/ RedNA(m, c, w) \in RS
+Closed(m, c, bs) == LET RS == RedSet(m, c, bs) IN \A i \in 1..Len(bs) : Covered(m, c, RS, bs[i])
 
 JobResult(m, c, j, X, kk, acts, ph, tieflag, edgeflag) ==
   LET bs == JobBs(m, j)
       nb == Len(bs)
       cl == Closed(m, c, bs)
+      RS == RedSet(m, c, bs)
   IN [iid |-> iid, kind |-> "pbvi", job |-> j, tb |-> tb, phase |-> ph, k |-> kk, scale |-> Pow(Sc(m), kk),
       alpha |-> X, acts |-> acts, tied |-> tieflag, edge |-> edgeflag, closed |-> cl,
       val  |-> [i \in 1..Len(m.beliefs) |-> AlphaValue(m, X, nb, kk, W(m, m.beliefs[i]))],
-      inset |-> [i \in 1..Len(m.beliefs) |-> InSet(m, c, bs, W(m, m.beliefs[i]))],
-      cov  |-> [i \in 1..Len(m.beliefs) |-> Covered(m, c, bs, W(m, m.beliefs[i]))]]
+      inset |-> [i \in 1..Len(m.beliefs) |-> InSet(m, c, RS, W(m, m.beliefs[i]))],
+      cov  |-> [i \in 1..Len(m.beliefs) |-> Covered(m, c, RS, W(m, m.beliefs[i]))]]
 
 \* ------------------------------------------------------------------ (R) belief-set expansion (trace validation)
 \* squared Euclidean distance between the normalised beliefs of two weight vectors, as a rational
@@ -294,10 +297,11 @@ Start(j, t) ==
   /\ LET h == Horizon(M, orc.c, M.jobs[j]) IN
      IF M.jobs[j].exact = 0 THEN
           /\ phase' = "skipped"
-          /\ out' = [iid |-> iid, kind |-> "pbvi", job |-> j, tb |-> t, phase |-> "skipped", h |-> h,
+          /\ out' = LET RS == RedSet(M, orc.c, JobBs(M, j)) IN
+                    [iid |-> iid, kind |-> "pbvi", job |-> j, tb |-> t, phase |-> "skipped", h |-> h,
                      closed |-> Closed(M, orc.c, JobBs(M, j)),
-                     inset |-> [i \in 1..Len(M.beliefs) |-> InSet(M, orc.c, JobBs(M, j), W(M, M.beliefs[i]))],
-                     cov |-> [i \in 1..Len(M.beliefs) |-> Covered(M, orc.c, JobBs(M, j), W(M, M.beliefs[i]))]]
+                     inset |-> [i \in 1..Len(M.beliefs) |-> InSet(M, orc.c, RS, W(M, M.beliefs[i]))],
+                     cov |-> [i \in 1..Len(M.beliefs) |-> Covered(M, orc.c, RS, W(M, M.beliefs[i]))]]
      ELSE IF h = -1 THEN
           /\ phase' = "undefined"
           /\ out' = [iid |-> iid, kind |-> "pbvi", job |-> j, tb |-> t, phase |-> "undefined", h |-> h]
@@ -312,7 +316,7 @@ Backup ==
   /\ LET job == M.jobs[jx]
          h   == Horizon(M, orc.c, job)
          r   == BackupAll(M, orc.c, job, JobBs(M, jx), bv, k, tb)
-         tf  == tied \/ r.tie
+         tf  == tied \/ r.tie \/ r.edge      \* anything floating point could decide differently
      IN IF r.small
         THEN /\ phase' = "stopped" /\ bv' = bv /\ k' = k /\ tied' = tf
              /\ out' = JobResult(M, orc.c, jx, bv, k, r.acts, "stopped", tf, r.edge)
@@ -382,7 +386,8 @@ NeverOver ==
 \*      anything between Lo_d and Hi_d
 ClosedExact ==
   (Live /\ Closed(M, orc.c, JobBs(M, jx))) =>
-     \A i \in 1..Len(M.beliefs) : InSet(M, orc.c, JobBs(M, jx), BelW(i)) =>
+     LET RS == RedSet(M, orc.c, JobBs(M, jx)) IN
+     \A i \in 1..Len(M.beliefs) : InSet(M, orc.c, RS, BelW(i)) =>
         RLeq(RSub(orc.b[i].lo, SlackLo(M, orc.c, k)), AlphaValue(M, bv, NB, k, BelW(i)))
 \* (P3) the bracket is a bracket, and deeper is tighter
 BracketSane ==
